@@ -1,4 +1,5 @@
 import functools
+import threading
 from contextlib import contextmanager
 from contextvars import ContextVar
 
@@ -408,28 +409,37 @@ def inplace(fn):
 tooled.inplace = inplace
 
 
+# Functions are shared by all threads: installing and removing their
+# instrumentation must be done by one thread at a time.
+_tooling_lock = threading.RLock()
+
+
 def _tooler(fn, captures):
     if not hasattr(fn, "__code__"):
         raise TypeError(f"{fn} cannot be tooled")
 
-    if hasattr(fn, "__ptera_stack__"):
-        st = fn.__ptera_stack__
-    else:
-        st = fn.__ptera_stack__ = SyncedStackedTransforms(fn, proceed=proceed)
+    with _tooling_lock:
+        if hasattr(fn, "__ptera_stack__"):
+            st = fn.__ptera_stack__
+        else:
+            st = fn.__ptera_stack__ = SyncedStackedTransforms(
+                fn, proceed=proceed
+            )
 
-    try:
-        st.push(captures)
-    except BaseException:
-        # The function cannot be transformed: undo the bookkeeping of push
-        StackedTransforms.pop(st, captures)
-        raise
+        try:
+            st.push(captures)
+        except BaseException:
+            # The function cannot be transformed: undo the bookkeeping
+            StackedTransforms.pop(st, captures)
+            raise
     return fn
 
 
 def _untooler(fn, captures):
-    if hasattr(fn, "__ptera_stack__"):
-        st = fn.__ptera_stack__
-        st.pop(captures)
+    with _tooling_lock:
+        if hasattr(fn, "__ptera_stack__"):
+            st = fn.__ptera_stack__
+            st.pop(captures)
     return fn
 
 
